@@ -4,7 +4,7 @@
    which only the two stated laws are assumed (both are tested on every generated image).
    The configuration [c : cfg] says which corrections are in the tree (Pixels/Model.v); the harness
    derives it from known_findings/C07.json. *)
-From PsdV Require Import Base.Prelude Pixels.Model Pixels.Corr Pixels.Proofs.
+From PsdV Require Import Base.Prelude Pixels.Model Pixels.Corr Pixels.Proofs Pixels.File.
 Open Scope Z_scope.
 
 (* ---------------------------------------------------------------- CMYK inversion *)
@@ -287,3 +287,82 @@ Theorem layer_numpy_is_color_then_shape : forall cm l,
   layer_numpy cm l = layer_numpy_color cm l ++ layer_numpy_shape l.
 Proof. exact Proofs.layer_numpy_split. Qed.
 Print Assumptions layer_numpy_is_color_then_shape.
+
+(* ---------------------------------------------------------------- through the codecs and the file *)
+(* 11. END TO END with the modelled codecs (C04/C05) and the modelled file (C01): the image is imported
+   with PixelLayer.frompil, every channel goes through ChannelData.set_data with any of the four
+   compression methods, the document (8-bit, file version 1 or 2, any other content) is written to
+   bytes, the bytes are read, the channels decoded with the depth and version of the re-read header,
+   and the layer is exported.  zlib is any pair with the inverse law, the RLE decoder any conforming
+   decoder (both implementations are, C05); the charset codec of the file model is arbitrary. *)
+Theorem layer_import_export_through_file :
+  forall zc zd, (forall x, zd (zc x) = Some x) ->
+  forall rdec, CPr.conforming_decoder rdec ->
+  forall enc_s dec_s conv,
+  (forall r, conv (r_mode r) r = r) ->
+  (forall r, has_alpha (r_mode r) = true -> last_band (conv MRGBA r) = last_band r) ->
+  forall pad d i cfg0 img top left c cds bs n,
+  0 < pad -> PM.wf_psd enc_s dec_s d = true -> PM.h_depth (PM.p_header d) = 8 ->
+  wf_raster img -> 1 <= r_w img -> 1 <= r_h img -> r_mode img <> M1 ->
+  let l := layer_frompil conv cfg0 (Some (r_mode img)) img top left in
+  store_layer zc c (PM.h_version (PM.p_header d)) l = Ok cds ->
+  nth_error (CF.chans_of d) i = Some cds ->
+  PM.write_psd enc_s pad d = Ok (bs, n) ->
+  exists d2 l2, PM.read_psd dec_s bs = Ok d2 /\
+    nth_error (CF.chans_of d2) i = Some cds /\
+    load_layer zd rdec l (PM.h_depth (PM.p_header d2)) (PM.h_version (PM.p_header d2)) cds = Ok l2 /\
+    layer_topil (color_mode_of (r_mode img)) l2 = Ok (Some (with_opaque img)) /\
+    layer_numpy (color_mode_of (r_mode img)) l2 = stored_color img ++ [stored_alpha img].
+Proof.
+  intros zc zd Hz rdec Hr enc_s dec_s conv H1 H2.
+  exact (File.layer_import_export_through_file zc zd Hz rdec Hr enc_s dec_s conv H1 H2).
+Qed.
+Print Assumptions layer_import_export_through_file.
+
+(* 12. the same for PSDImage.frompil: planes -> ImageData.set_data (any compression) -> image-data
+   section of a well-formed document with the header frompil made (any file version) -> bytes ->
+   read -> ImageData.get_data -> topil() *)
+Theorem doc_import_export_through_file :
+  forall zc zd, (forall x, zd (zc x) = Some x) ->
+  forall rdec, CPr.conforming_decoder rdec ->
+  forall enc_s dec_s conv pad cfg0 img c d d1 bs n,
+  0 < pad ->
+  wf_raster img -> 1 <= r_w img -> 1 <= r_h img -> r_mode img <> M1 ->
+  let hp := doc_frompil_planes conv cfg0 img in
+  PM.h_width (PM.p_header d) = h_w (fst hp) -> PM.h_height (PM.p_header d) = h_h (fst hp) ->
+  PM.h_channels (PM.p_header d) = h_channels (fst hp) -> PM.h_depth (PM.p_header d) = 8 ->
+  CF.store_image zc c (snd hp) d = Ok d1 ->
+  PM.wf_psd enc_s dec_s d1 = true ->
+  PM.write_psd enc_s pad d1 = Ok (bs, n) ->
+  exists d2, PM.read_psd dec_s bs = Ok d2 /\
+    CF.image_pixels zd rdec d2 = Ok (snd hp) /\
+    topil_of_planes (fst hp) (snd hp) (doc_has_transparency (fst hp) 0) =
+      match r_mode img with
+      | MCMYK => if fx_cmyk cfg0 then img else invert img
+      | MRGBA => if fx_matte cfg0 then unmatte (matte img) else unmatte img
+      | _ => img
+      end.
+Proof.
+  intros zc zd Hz rdec Hr enc_s dec_s conv.
+  exact (File.doc_import_export_through_file zc zd Hz rdec Hr enc_s dec_s conv).
+Qed.
+Print Assumptions doc_import_export_through_file.
+
+(* any layer of 8-bit planes, whatever produced it, survives the file with every codec and version *)
+Theorem layer_survives_file :
+  forall zc zd, (forall x, zd (zc x) = Some x) ->
+  forall rdec, CPr.conforming_decoder rdec ->
+  forall enc_s dec_s pad d i l c cds bs n,
+  0 < pad -> PM.wf_psd enc_s dec_s d = true -> PM.h_depth (PM.p_header d) = 8 ->
+  Forall (fun p => CP.raster p (l_right l - l_left l) (l_bottom l - l_top l) 8) (map snd (l_chans l)) ->
+  store_layer zc c (PM.h_version (PM.p_header d)) l = Ok cds ->
+  nth_error (CF.chans_of d) i = Some cds ->
+  PM.write_psd enc_s pad d = Ok (bs, n) ->
+  exists d2, PM.read_psd dec_s bs = Ok d2 /\
+    nth_error (CF.chans_of d2) i = Some cds /\
+    load_layer zd rdec l (PM.h_depth (PM.p_header d2)) (PM.h_version (PM.p_header d2)) cds = Ok l.
+Proof.
+  intros zc zd Hz rdec Hr enc_s dec_s.
+  exact (File.layer_survives_file zc zd Hz rdec Hr enc_s dec_s).
+Qed.
+Print Assumptions layer_survives_file.
